@@ -82,6 +82,12 @@ def gen_mixed(rng, depth=1):
             if rng.random() < 0.4:
                 # an explicit id that sorts in between the atoms' names: atoms and compounds interleave in id order
                 c["id"] = rng.choice("abcdefgh") + str(rng.randint(1, 99))
+            elif rng.random() < 0.5:
+                # a compound over the parent's own (boolean) atoms: Any(x) next to x, Any(x, y) next to x and y — its negation
+                # coincides with the negated group of those atoms
+                ba = [x for x in atoms if (x["lo"], x["hi"]) == (0, 1)]
+                if ba:
+                    c = {"c": rng.choice(["Any", "Any", "All"]), "args": [{"c": "str", "id": x["id"]} for x in (ba if rng.random() < 0.5 else ba[:1])]}
             comps.append(c)
     if rng.random() < 0.35:
         # conjunction-shaped: value = number of children, boolean atoms (also as All(...))
